@@ -164,6 +164,41 @@ def normalise(ast, reserved_prefix=None, text=None):
     return Normaliser(reserved_prefix, li).node(ast)
 
 
+def depth(n):
+    d = 0
+    stack = [(n, 1)]
+    while stack:
+        x, k = stack.pop()
+        if k > d:
+            d = k
+        for c in x["c"]:
+            stack.append((c, k + 1))
+    return d
+
+
+def flatten(n):
+    """flat encoding for trees too deep for the JSON reader of the TLA+ Json module (nesting limit 255):
+    {"nodes": [{t, v, a, id, k: [1-based child indices], ...}], "root": 1}; TreeOf() in JsAst.tla rebuilds it"""
+    nodes = []
+
+    def go(x):
+        i = len(nodes)
+        rec = {k: v for k, v in x.items() if k != "c"}
+        rec["k"] = []
+        nodes.append(rec)
+        for c in x["c"]:
+            rec["k"].append(go(c) + 1)
+        return i
+    import sys
+    sys.setrecursionlimit(max(sys.getrecursionlimit(), 20000))
+    go(n)
+    return {"nodes": nodes, "root": 1}
+
+
+def encode(n, limit=100):
+    return flatten(n) if depth(n) > limit else n
+
+
 def size(n):
     return 1 + sum(size(c) for c in n["c"])
 
